@@ -117,7 +117,7 @@ def run(ctx, prop, relevant):
         design_neg["liveness_NoStuckWaiter_violated"] = "NoStuckWaiter" in r.out and "violated" in r.out
     scen = tc.simulate(ctx, "NodePool_mc", "NodePool_gen.cfg", num=24 if q else 300, depth=60)
     bins = go_build_tests(ctx, [PKG])
-    traces = run_harness(ctx, bins[PKG], 16, {"VERIF_SCEN": scen, "VERIF_RANDOM": "24" if q else "300"})
+    traces = run_harness(ctx, bins[PKG], 16, {"VERIF_SCEN": scen, "VERIF_RANDOM": "24" if q else "300", "VERIF_DIRECTED": "12" if q else "96"})
     rej = tc.validate_many(ctx, "NodePool_trace", trace_cfg(prop), [strip(t) for t in traces])
     for k, line in rej:
         t = traces[k]
